@@ -8,11 +8,15 @@ are in `RpycModel/Proto/LedgerLemmas.lean` and `LedgerInv.lean`.  Everything bel
 sequence (any mix of synchronous, asynchronous and nested requests, any handler outcomes, any number
 outstanding at once, any hand-built response frames), from any starting values of the two counters.
 
-`C08_statement` is the full property over all six ways a request can leave its `try:` suite: value,
-reference, exception, undecodable arguments, unencodable result (answered since the repair of F2) and an
-exception whose own payload cannot be built or encoded (answered since the repair recorded as
-`C08:unserializable-exception-no-response`).  The model follows the repaired code and `exactly_one` proves
-the statement in full; reverting either repair in the model's `dispatchRequest`/`sendException` breaks
+`C08_statement` is the full property over every way a request can leave its `try:` suite: value, reference,
+an `Exception`, a `BaseException` that is not an `Exception` (CancelledError, GeneratorExit, user classes,
+SystemExit / KeyboardInterrupt under the default configuration: the `except:` is bare), undecodable
+arguments, unencodable result (answered since the repair of F2) and an exception whose own payload cannot be
+built or encoded (answered since the repair `C08:unserializable-exception-no-response`).  The one outcome it
+leaves out is the one the CONFIGURATION routes elsewhere: SystemExit / KeyboardInterrupt on a side whose
+`propagate_*_locally` switch is on (`raiseLocal`; `configured_local_propagation` shows what happens then).
+The model follows the repaired code and `exactly_one` proves the statement in full; reverting a repair —
+or narrowing the bare `except:` — in the model's `dispatchRequest`/`sendException` breaks
 `exactly_one_dispatch`.
 -/
 namespace Rpyc.Props.C08
@@ -169,28 +173,32 @@ theorem counting {s : St} (h : Reach s) (x : Side) (r : Nat) :
   have := d.count r
   exact ⟨by omega, d.once r⟩
 
-/-- **The full property**: after every event sequence, with every handler outcome. -/
+/-- **The full property**: after every event sequence, with every handler outcome (every outcome under the
+default configuration; with a `propagate_*_locally` switch on, every outcome but the one it routes locally). -/
 def C08_statement : Prop :=
-  ∀ (sa sb : Nat) (es : List Ev) (s : St), run (St.init sa sb) es = some s → Good s
+  ∀ (sa sb : Nat) (es : List Ev) (s : St), run (St.init sa sb) es = some s →
+    (∀ e ∈ es, e.act.notLocal = true) → Good s
 
 /-- **exactly_one (dispatch).** For every outcome class `_dispatch_request` sends exactly one message: a reply
-for a value or a reference, the exception otherwise — including arguments that cannot be decoded, a result
-that cannot be encoded, and an exception that cannot itself be serialized. -/
+for a value or a reference, the exception otherwise — an `Exception`, any other `BaseException`, arguments that
+cannot be decoded, a result that cannot be encoded, an exception that cannot itself be serialized.  Only the
+configured local propagation of SystemExit / KeyboardInterrupt leaves it without a response. -/
 theorem exactly_one_dispatch :
     dispatchRequest .value = .respond .reply ∧ dispatchRequest .ref = .respond .reply
-    ∧ dispatchRequest .raise = .respond .exc ∧ dispatchRequest .undecodableArgs = .respond .exc
+    ∧ dispatchRequest .raise = .respond .exc ∧ dispatchRequest .raiseBase = .respond .exc
+    ∧ dispatchRequest .undecodableArgs = .respond .exc
     ∧ dispatchRequest .unencodableResult = .respond .exc ∧ dispatchRequest .unserializableExc = .respond .exc
-    ∧ (∀ o, dispatchRequest o ≠ .propagate) :=
-  ⟨by decide, by decide, by decide, by decide, by decide, by decide, dispatch_never_propagates⟩
+    ∧ (∀ o, o ≠ .raiseLocal → dispatchRequest o ≠ .propagate) :=
+  ⟨by decide, by decide, by decide, by decide, by decide, by decide, by decide, dispatch_never_propagates⟩
 
 /-- **exactly_one (the full property).** After every event sequence — every mix of synchronous, asynchronous
 and nested requests, every handler outcome, any number outstanding — nobody has died, and every request
 sent is in the peer's inbox, or being handled, or has been answered: exactly one of the three, exactly
 once. -/
 theorem exactly_one : C08_statement := by
-  intro sa sb es s h
+  intro sa sb es s h hloc
   have hr : Reach s := ⟨sa, sb, es, h⟩
-  have hl := run_alive es _ _ h (fun e _ => Act.answered_all e.act) (alive_init sa sb)
+  have hl := run_alive es _ _ h (fun e he => Act.answered_of_notLocal e.act (hloc e he)) (alive_init sa sb)
   refine ⟨hl.a, hl.b, ?_⟩
   intro x r hmem
   have hc := counting hr x r
@@ -200,14 +208,23 @@ theorem exactly_one : C08_statement := by
   simp only [nSeq_nil] at hc
   omega
 
-/-- **usable afterwards.** After every event sequence the connection stays usable: either side can issue the next
+/-- what the configuration asks for instead: with `propagate_SystemExit_locally` (or the KeyboardInterrupt
+switch) on, a handler raising that exception is executed, nothing is sent, and the exception leaves the
+serving side's `serve()` — by configuration, not a violation of the statement -/
+theorem configured_local_propagation :
+    ∃ s, run (St.init 0 0) [⟨.A, .issue .sync⟩, ⟨.B, .deliver⟩, ⟨.B, .finish .raiseLocal 0⟩] = some s
+      ∧ s.b.dead = true ∧ s.b.executed = [0] ∧ s.b.answered = [] ∧ s.wire = [(.A, .req 0)] :=
+  ⟨_, rfl, rfl, rfl, rfl, rfl⟩
+
+/-- **usable afterwards.** After every such event sequence the connection stays usable: either side can issue the next
 request (synchronous or asynchronous), a handler at the top of a stack can finish with any outcome, and a
 side whose serve loop or wait loop is at the top receives the next message of a non-empty inbox. -/
-theorem stays_usable (sa sb : Nat) (es : List Ev) (s : St) (h : run (St.init sa sb) es = some s) (x : Side) :
+theorem stays_usable (sa sb : Nat) (es : List Ev) (s : St) (h : run (St.init sa sb) es = some s)
+    (hloc : ∀ e ∈ es, e.act.notLocal = true) (x : Side) :
     (∀ k, ∃ s', step s ⟨x, .issue k⟩ = some s')
     ∧ (∀ r rest o v, (s.get x).stack = .handling r :: rest → ∃ s', step s ⟨x, .finish o v⟩ = some s')
     ∧ (canServe (s.get x).stack = true → (s.get x).inbox ≠ [] → ∃ s', step s ⟨x, .deliver⟩ = some s') := by
-  have hl := run_alive es _ _ h (fun e _ => Act.answered_all e.act) (alive_init sa sb)
+  have hl := run_alive es _ _ h (fun e he => Act.answered_of_notLocal e.act (hloc e he)) (alive_init sa sb)
   have hx := (hl.get x).1
   have hp := (hl.get x.peer).1
   refine ⟨?_, ?_, ?_⟩
@@ -230,13 +247,13 @@ more (both inboxes empty, the peer handling nothing), every request it sent has 
 by the peer, that answer has been delivered exactly once — to the waiter registered under the request's own
 number — and no waiter is left in the table. -/
 theorem quiescent_all_answered (sa sb : Nat) (es : List Ev) (s : St) (h : run (St.init sa sb) es = some s)
-    (x : Side)
+    (hloc : ∀ e ∈ es, e.act.notLocal = true) (x : Side)
     (hinj : (s.get x).injected = []) (hq1 : (s.get x).inbox = []) (hq2 : (s.get x.peer).inbox = [])
     (hq3 : (s.get x.peer).stack = []) (r : Nat) (hr : r ∈ (s.get x).issued) :
     nKey r (s.get x.peer).answered = 1 ∧ nKey r (s.get x).results = 1 ∧ nKey r (s.get x).callbacks = 0
     ∧ (∀ e ∈ (s.get x).results, e ∈ (s.get x.peer).answered) := by
   have hreach : Reach s := ⟨sa, sb, es, h⟩
-  have hl := run_alive es _ _ h (fun e _ => Act.answered_all e.act) (alive_init sa sb)
+  have hl := run_alive es _ _ h (fun e he => Act.answered_of_notLocal e.act (hloc e he)) (alive_init sa sb)
   have d := hreach.inv.dir x
   have hc := d.count r
   have hw := d.waiter r
@@ -275,7 +292,7 @@ theorem send_failure_unregisters {s s' : St} (h : Reach s) {x : Side} (hs : step
   simp only [St.put_get_self, St.put_get_peer, St.put_wire, unregister_register_fresh _ _ _ hcb, true_and]
   exact ⟨(not_registered_iff _ _).mpr hcb, trivial⟩
 
-/-! ### non-vacuity: a concrete run with every kind of event and all six outcome classes -/
+/-! ### non-vacuity: a concrete run with every kind of event and all answered outcome classes -/
 
 /-- asynchronous and synchronous requests outstanding together, a nested callback (B's handler calls A
 back, A's handler calls B again), a reply that arrives while a deeper wait loop is on top, an unencodable
@@ -303,19 +320,20 @@ def sample : List Ev :=
    ⟨.A, .deliver⟩,                      -- EXC 0 delivered to the awaited async result
    ⟨.A, .deliver⟩, ⟨.A, .deliver⟩,      -- the two hand-built frames
    ⟨.A, .issue .async⟩, ⟨.B, .deliver⟩, ⟨.B, .finish .undecodableArgs 0⟩, ⟨.A, .deliver⟩,
-   ⟨.A, .issue .sync⟩, ⟨.B, .deliver⟩, ⟨.B, .finish .unserializableExc 6⟩, ⟨.A, .deliver⟩]
+   ⟨.A, .issue .sync⟩, ⟨.B, .deliver⟩, ⟨.B, .finish .unserializableExc 6⟩, ⟨.A, .deliver⟩,
+   ⟨.A, .issue .sync⟩, ⟨.B, .deliver⟩, ⟨.B, .finish .raiseBase 8⟩, ⟨.A, .deliver⟩]
 
 example : ∃ s, run (St.init 0 0) sample = some s
-    ∧ s.a.results = [(2, .exc, 7), (3, .reply, 9), (0, .exc, 4), (4, .exc, 0), (5, .exc, 6)]
+    ∧ s.a.results = [(2, .exc, 7), (3, .reply, 9), (0, .exc, 4), (4, .exc, 0), (5, .exc, 6), (6, .exc, 8)]
     ∧ s.b.results = [(0, .reply, 5)]
     ∧ s.a.dropped = [2, 50] ∧ s.a.callbacks = [] ∧ s.b.callbacks = []
-    ∧ s.b.executed = [2, 3, 0, 5] ∧ s.a.executed = [0]
-    ∧ s.a.stack = [] ∧ s.b.stack = [] ∧ s.a.seq = 6 ∧ s.a.issued = [0, 2, 3, 4, 5] :=
+    ∧ s.b.executed = [2, 3, 0, 5, 6] ∧ s.a.executed = [0]
+    ∧ s.a.stack = [] ∧ s.b.stack = [] ∧ s.a.seq = 7 ∧ s.a.issued = [0, 2, 3, 4, 5, 6] :=
   ⟨_, rfl, rfl, rfl, rfl, rfl, rfl, rfl, rfl, rfl, rfl, rfl, rfl⟩
 
 example : ∃ s, run (St.init 0 0) sample = some s ∧ Good s := by
   have h : ∃ s, run (St.init 0 0) sample = some s := ⟨_, rfl⟩
   obtain ⟨s, hs⟩ := h
-  exact ⟨s, hs, exactly_one 0 0 sample s hs⟩
+  exact ⟨s, hs, exactly_one 0 0 sample s hs (by decide)⟩
 
 end Rpyc.Props.C08
